@@ -823,6 +823,10 @@ O(id='SET_OF_encode_oer.cbfail', props=['C07'], kind='bounded', entry='h_SET_OF_
   unwind=6, cbmc=['--unwindset', 'realloc.0:66,oer_fetch_length.0:10,oer_fetch_length.1:10,oer_fetch_quantity.0:10,oer_fetch_quantity.1:10,vf_cb.0:14,oer_put_quantity.0:10', '--no-malloc-may-fail'],
   bound='list of 2 stub elements; the output callback refuses one call (any of the first 5)', min_props=40, timeout=600, **dict(SQF, defines=['VF_CB_CAP=12', 'VF_COUNT=2', 'VF_FAIL=1']))
 
+O(id='SEQUENCE_encode_uper.cbfail', props=['C07'], kind='bounded', entry='h_SEQUENCE_encode_uper_cbfail', functions=['SEQUENCE_encode_uper', 'per_put_few_bits', 'per_put_aligned_flush'],
+  unwind=10, cbmc=['--unwindset', 'asn_put_few_bits:4,vf_cb.0:42', '--no-malloc-may-fail'], bound='every value and presence combination; the output callback refuses one call (any of the first 6), scratch space pre-filled', min_props=60, timeout=900,
+  **dict(SQU, defines=['VF_CB_CAP=40']))
+
 for _o in OBLIGATIONS:
     if _o.get('enforce') and _o.get('kind') in ('enforce', 'width') and _o.get('tier') == 'quick' and 'C19' not in _o['props']:
         _o['props'] = _o['props'] + ['C19']
